@@ -109,7 +109,16 @@ Definition after_colon (s : string) : string :=
   | None => s
   end.
 
+(* nothing but hook points stands before sc.mu.Lock() in Schema — no helper, of whatever kind, that
+   could look at the maps first —, the Lock is followed at once by defer Unlock, and no function
+   on the path starts a goroutine (which would outlive the critical section) *)
+Definition schema_body_ok : bool :=
+  match ConcStateGen.schema_prelude with [] => true | _ => false end &&
+  ConcStateGen.schema_lock_then_defer_unlock &&
+  match ConcStateGen.go_stmts with [] => true | _ => false end.
+
 Definition boundary_ok (roots lf lk callers : list string) : bool :=
+  schema_body_ok &&
   in_strs schema_fn lk && negb (in_strs schema_fn lf) &&
   forallb (fun r => in_strs r lf) roots &&
   negb (match callers with [] => true | _ => false end) &&
